@@ -41,7 +41,9 @@ pub fn run(out: &mut Out, seed: u64, tier: &str) {
         // every other molecule sits far from the origin (coordinates below -1000 and above 10000: wider than the usual columns)
         if k % 2 == 1 { for p in m.xs.iter_mut() { p[0] += 3.0; p[1] -= 1500.0; p[2] += 12000.0; } }
         // round the coordinates to what the input file will carry, so the in-process reference starts from the same data
-        let mut text = format!("{}\n\n", m.n());
+        // every third input carries a title in Latin-1 (0xC5 = A-ring, 0xE9 = e-acute: not valid UTF-8), as older programs write them
+        let latin1 = k % 3 == 2;
+        let mut text = format!("{}\n{}\n", m.n(), if latin1 { "r(OH) in @A, @energie" } else { "" });
         for (s, p) in m.symbols().iter().zip(m.xs.iter()) { text += &format!("{} {:.8} {:.8} {:.8}\n", s, p[0], p[1], p[2]); }
         let mr = { let (syms, xs) = parse_xyz(text.as_bytes()).unwrap(); Mol { name: m.name.clone(), zs: syms.iter().map(|s| z_of(s)).collect(), xs } };
         let variants: Vec<(Vec<&str>, &str)> = vec![
@@ -62,19 +64,20 @@ pub fn run(out: &mut Out, seed: u64, tier: &str) {
             let _ = std::fs::remove_dir_all(&dir);
             std::fs::create_dir_all(&dir).unwrap();
             if let Some(parent) = std::path::Path::new(&format!("{}/{}", dir, fname)).parent() { std::fs::create_dir_all(parent).unwrap(); }
-            std::fs::write(format!("{}/{}", dir, fname), &text).unwrap();
+            let file_bytes: Vec<u8> = if latin1 { let mut b = text.clone().into_bytes(); let mut seen = 0; for v in b.iter_mut() { if *v == b'@' { *v = if seen == 0 { 0xC5 } else { 0xE9 }; seen += 1; } } b } else { text.clone().into_bytes() };
+            std::fs::write(format!("{}/{}", dir, fname), &file_bytes).unwrap();
             let input_is_output = *fname == "opt.xyz" || *fname == "./opt.xyz";
             let pre_existing = vi % 2 == 0 && !input_is_output;
-            let sentinel: Vec<u8> = if input_is_output { text.clone().into_bytes() } else { sentinel.clone() };
+            let sentinel: Vec<u8> = if input_is_output { let mut b = text.clone().into_bytes(); if latin1 { let mut seen = 0; for v in b.iter_mut() { if *v == b'@' { *v = if seen == 0 { 0xC5 } else { 0xE9 }; seen += 1; } } } b } else { sentinel.clone() };
             if pre_existing { std::fs::write(format!("{}/opt.xyz", dir), &sentinel).unwrap(); }
             let argv: Vec<String> = args.iter().map(|s| s.to_string()).collect();
             let r = run_in(&dir, &argv);
             // an output written anywhere but the working directory is a stray file
             let stray = std::path::Path::new(&format!("{}/{}", dir, fname)).parent().map(|p| p.join("opt.xyz"))
                 .map(|p| p != std::path::Path::new(&format!("{}/opt.xyz", dir)) && p.canonicalize().ok() != std::path::Path::new(&format!("{}/opt.xyz", dir)).canonicalize().ok() && p.exists()
-                    && !(fname.ends_with("/opt.xyz") && std::fs::read(&p).ok().as_deref() == Some(text.as_bytes()))).unwrap_or(false);
+                    && !(fname.ends_with("/opt.xyz") && std::fs::read(&p).ok().as_deref() == Some(&file_bytes[..]))).unwrap_or(false);
             // an input that is not the output file must be left as it was
-            if !input_is_output && std::fs::read(format!("{}/{}", dir, fname)).ok().as_deref() != Some(text.as_bytes()) {
+            if !input_is_output && std::fs::read(format!("{}/{}", dir, fname)).ok().as_deref() != Some(&file_bytes[..]) {
                 out.oracle_fail("the input file was changed or removed by the run", &format!("optrs {:?} with the input at {}", args, fname)); }
             let _ = std::fs::remove_dir_all(&dir);
             if stray { out.oracle_fail("an opt.xyz was written next to the input file instead of (or besides) the working directory", &format!("optrs {:?} with the input at {}", args, fname)); }
